@@ -402,7 +402,16 @@ def sheet_events(rng, eid, W):
     buf = io.StringIO()
     try:
         with contextlib.redirect_stdout(buf):
-            if how == "wbs":
+            if how == "wbs" and rng.random() < 0.2:
+                # no arguments at all: the default fields, children shown
+                (w.print if rng.random() < 0.5 else w.roots.print)()
+                fields, ev["children"] = None, True
+                ev["roots"] = [r for r in W["roots"] if home[r - 1] == 1]
+            elif how == "task" and rng.random() < 0.2:
+                t = rng.randint(1, n)
+                objs[t - 1].print()
+                fields, ev["children"], ev["roots"] = None, True, [t]
+            elif how == "wbs":
                 w.print(fields, children, theme)
                 ev["roots"] = [r for r in W["roots"] if home[r - 1] == 1]
             elif how == "other":
